@@ -432,7 +432,16 @@ func (e *Exec) external(fr *Frame, st State, fn *ssa.Function, args []Val, pos t
 		return []Outcome{{st: s, ret: v}}
 	case "fmt.Sprintf", "fmt.Sprint":
 		s, v := e.freshString(st, "sprintf")
+		if name == "fmt.Sprintf" && len(args) == 2 {
+			s = e.textSprintf(s, v, args[0], args[1])
+		}
 		return []Outcome{{st: s, ret: v}}
+	case "strings.Split":
+		if s2, v, ok := e.textSplit(st, args[0], args[1]); ok {
+			return []Outcome{{st: s2, ret: v}}
+		}
+	case "strconv.Atoi":
+		return e.textAtoi(st, args[0])
 	case "bytes.TrimRight":
 		// returns a prefix of the argument (same base, shorter or equal length)
 		s := args[0]
